@@ -2,7 +2,7 @@
     the covered set.  Statements only. *)
 From Coq Require Import List NArith Lia.
 From MOC.Base Require Import RangeSet.
-From MOC.Model Require Import Query.
+From MOC.Model Require Import Query QueryBS.
 Import ListNotations.
 Open Scope N_scope.
 
@@ -50,6 +50,38 @@ Proof.
   repeat split; vm_compute; reflexivity.
 Qed.
 
+
+(** ---------- faithful models of the queries as the code computes them (Model/QueryBS.v): quick
+    rejection on the first start / last end, binary search of the query bound in the flat array
+    of bounds [s0; e0; s1; e1; ...] and parity of the index found.  On every canonical range
+    list they equal the predicates characterised above ---------- *)
+Theorem C03_contains_val_binary_search_parity : forall l x, Canon l ->
+  contains_val_bs l x = contains_val l x.
+Proof. exact contains_val_bs_spec. Qed.
+
+Theorem C03_contains_range_binary_search_parity : forall l a b, Canon l -> a < b ->
+  contains_range_bs l a b = contains_range l a b.
+Proof. exact contains_range_bs_spec. Qed.
+
+Theorem C03_intersects_range_binary_search_parity : forall l a b, Canon l -> a < b ->
+  intersects_range_bs l a b = intersects_range l a b.
+Proof. exact intersects_range_bs_spec. Qed.
+
+(** the parity rule itself: a value is covered iff its rank in the flat array is even when it
+    is one of the bounds (then it is a lower bound) and odd otherwise (strictly inside) *)
+Theorem C03_parity_rule : forall l x, Canon l ->
+  covb l x = (if mem (flat l) x then Nat.even (rank (flat l) x) else Nat.odd (rank (flat l) x)).
+Proof. exact covered_parity. Qed.
+
+Example C03_nonvacuous_binary_search :
+  let l := [(0, 4); (6, 9); (12, 20)] in
+  map (contains_val_bs l) [0; 3; 4; 5; 6; 8; 9; 11; 12; 19; 20; 25] =
+      [true; true; false; false; true; true; false; false; true; true; false; false] /\
+  contains_range_bs l 6 9 = true /\ contains_range_bs l 6 10 = false /\ contains_range_bs l 13 20 = true /\
+  intersects_range_bs l 4 6 = false /\ intersects_range_bs l 4 7 = true /\ intersects_range_bs l 9 12 = false /\
+  intersects_range_bs l 20 30 = false /\ intersects_range_bs l 10 13 = true.
+Proof. repeat split; vm_compute; reflexivity. Qed.
+
 Print Assumptions C03_contains_val.
 Print Assumptions C03_contains_range.
 Print Assumptions C03_intersects_range.
@@ -59,3 +91,7 @@ Print Assumptions C03_overlapped_by.
 Print Assumptions C03_fraction_zero.
 Print Assumptions C03_fraction_one.
 Print Assumptions C03_range_sum_is_full_width.
+Print Assumptions C03_contains_val_binary_search_parity.
+Print Assumptions C03_contains_range_binary_search_parity.
+Print Assumptions C03_intersects_range_binary_search_parity.
+Print Assumptions C03_parity_rule.
